@@ -23,6 +23,9 @@ def fault_enumeration(ctx):
         for s in scheds[::3]:
             cfgs.append(dict(tag="faults-multi-df-%s-%s" % (it, "_".join(map(str, s))), multi=True, phases=[dict(name="beta", gamma=0.05)],
                              calls=[(0.3, 0.05)], iter=it, faults={"drivingForce": s}, cap=40))
+            # the impingement query of the nucleation rate fails: the backend answers with the previous factor, or with None when there is none yet
+            cfgs.append(dict(tag="faults-multi-impingement-%s-%s" % (it, "_".join(map(str, s))), multi=True, phases=[dict(name="beta", gamma=0.05)],
+                             calls=[(0.3, 0.05)], iter=it, faults={"impingement": s}, cap=40))
     with cf.ProcessPoolExecutor(max_workers=14) as ex:
         results = list(ex.map(S._one, cfgs))
     traces = [r[0] for r in results]
@@ -53,7 +56,7 @@ def run(ctx, replay=None):
                 "at its requested time. (2) fault enumeration: every schedule of <= 2 backend failures (driving force returns (None, None) in binary and multicomponent runs; the multicomponent growth / "
                 "interfacial-composition query returns None) among the first 8 (quick) / 14 (thorough) calls of that kind x both iterators; the run must finish and satisfy all of (1). "
                 "Distinct = configuration or fault schedule; non-trivial = the fault actually fired / more than 5 steps.")
-    ctx.assumptions = ["faults are injected at the documented failure value of getDrivingForce, (None, None); multicomponent growth faults are covered by the multicomponent suite"]
+    ctx.assumptions = ["faults are injected at the documented failure value of getDrivingForce, (None, None); multicomponent growth faults are covered by the multicomponent suite; a failed impingement query returns the previous factor or None (what MulticomponentThermodynamics does)"]
     def corrupt(ev):
         for e in ev:
             if e["e"] == "step" and e["n"] == 20:
